@@ -12,7 +12,8 @@ Core Lean only.  Contents
 * `preimage?`         `serialize(obj.expose_attributes_for_hashing())`; `none` = the Python code raises
 * `Content κ`, `canon`  the abstract content named by the property and its canonical tree
 * `content`           the content of a table state as the public getters show it
-* `Op`, `step`, `run`  table-level add_node / add_edge / remove_edge / remove_node / set_* / clear
+* `Op`, `step`, `run`  table-level add_node / add_edge / remove_edge / remove_node / set_* / clear, the attribute-level
+                      setters (`set_attr_to_*`, `remove_attr_from_*`), the batched calls, `build` = constructor with lists
 -/
 namespace C07
 open AL
@@ -466,6 +467,75 @@ def clear (t : Tables κ) : Tables κ :=
   { t with adj := [], adjT := [], edgeList := [], rev := [], weights := [], edgeMeta := [], nodeMeta := [],
            hmeta := if (Kind.flags κ).clearHMeta then emptyObj else t.hmeta }
 
+/-! ### attribute-level setters (`set_attr_to_*`, `remove_attr_from_*`)
+
+The Python code edits the STORED dictionary in place (`self._node_metadata[node][field] = value`).  The tables of the
+model are values: an edit replaces the entry of that one node / hyperedge and nothing else.  The real object behaves
+like this exactly when no two entries share one dictionary object (the correspondence checks it: batched insertions
+without metadata followed by attribute edits). -/
+
+/-- Python `d[field] = value` on a JSON value: only a dict supports it (anything else raises TypeError);
+an existing key keeps its position, a new one is appended -/
+def JTree.setField : JTree → String → JTree → Option JTree
+  | .obj l, f, v => some (.obj (set l f v))
+  | _, _, _ => none
+
+/-- Python `del d[field]`: KeyError when the field is missing, TypeError when `d` is not a dict -/
+def JTree.delField : JTree → String → Option JTree
+  | .obj l, f => if has l f then some (.obj (erase l f)) else none
+  | _, _ => none
+
+/-- `set_attr_to_node_metadata` / `remove_attr_from_node_metadata` (all four classes test `node in _node_metadata`);
+`edit` is `d[field] = value` or `del d[field]`; `false` = ValueError / KeyError / TypeError, state unchanged -/
+def editNodeMeta (t : Tables κ) (n : Nat) (edit : JTree → Option JTree) : Tables κ × Bool :=
+  match get? t.nodeMeta n with
+  | some md =>
+    match edit md with
+    | some md' => ({ t with nodeMeta := set t.nodeMeta n md' }, true)
+    | none => (t, false)
+  | none => (t, false)
+
+/-- `set_attr_to_edge_metadata` / `remove_attr_from_edge_metadata`: the id is looked up under the canonical key,
+then `self._edge_metadata[id]` is edited -/
+def editEdgeMeta (t : Tables κ) (raw : κ) (edit : JTree → Option JTree) : Tables κ × Bool :=
+  match get? t.edgeList (Kind.canonK raw) with
+  | some id =>
+    match get? t.edgeMeta id with
+    | some md =>
+      match edit md with
+      | some md' => ({ t with edgeMeta := set t.edgeMeta id md' }, true)
+      | none => (t, false)
+    | none => (t, false)
+  | none => (t, false)
+
+/-- `set_attr_to_hypergraph_metadata` -/
+def setHAttr (t : Tables κ) (f : String) (v : JTree) : Tables κ × Bool :=
+  match t.hmeta.setField f v with
+  | some md => ({ t with hmeta := md }, true)
+  | none => (t, false)
+
+/-! ### batched calls and the constructor with lists (valid calls: one metadata entry per item or no metadata
+argument at all; weights only for hyperedge lists without repetition) -/
+
+/-- `add_nodes(node_list, metadata)`: `add_node(node, metadata[node])` (or `add_node(node, None)`) one after the
+other; every node gets ITS OWN entry -/
+def addNodes (t : Tables κ) (items : List (Nat × Option JTree)) : Tables κ :=
+  items.foldl (fun s p => addNode s p.1 p.2) t
+
+/-- `add_edges(edge_list, weights, metadata)`: a weights list turns the hypergraph weighted; then
+`add_edge(edge, weights[i] if weights is not None else None, metadata[i] if metadata is not None else None)`
+one after the other; every record gets ITS OWN metadata entry.  (`withW` with an empty list is not generated: the
+classes differ on whether the call is made at all.) -/
+def addEdges (t : Tables κ) (withW : Bool) (items : List (κ × Option Num × Option JTree)) : Tables κ :=
+  items.foldl (fun s it => (addEdge s it.1 (if withW then it.2.1 else none) it.2.2).1)
+    (if withW then { t with weighted := true } else t)
+
+/-- constructor with `node_metadata`, `edge_list` (+ `time_list` / `edge_layer`), `weights`, `edge_metadata`:
+`add_node(node, md)` for every entry, then `add_edges` -/
+def build (κ : Type) [Kind κ] (weighted : Bool) (hm : List (String × JTree)) (nodes : List (Nat × JTree))
+    (withW : Bool) (items : List (κ × Option Num × Option JTree)) : Tables κ :=
+  addEdges (addNodes (init κ weighted hm) (nodes.map (fun p => (p.1, some p.2)))) withW items
+
 inductive Op (κ : Type) where
   | addNode (n : Nat) (md : Option JTree)
   | addEdge (k : κ) (w : Option Num) (md : Option JTree)
@@ -476,6 +546,13 @@ inductive Op (κ : Type) where
   | setHMeta (md : JTree)
   | setWeight (k : κ) (w : Num)
   | clear
+  | addNodes (items : List (Nat × Option JTree))
+  | addEdges (withW : Bool) (items : List (κ × Option Num × Option JTree))
+  | setNodeAttr (n : Nat) (f : String) (v : JTree)
+  | delNodeAttr (n : Nat) (f : String)
+  | setEdgeAttr (k : κ) (f : String) (v : JTree)
+  | delEdgeAttr (k : κ) (f : String)
+  | setHAttr (f : String) (v : JTree)
 
 def step (t : Tables κ) : Op κ → Tables κ × Bool
   | .addNode n md => (addNode t n md, true)
@@ -487,6 +564,13 @@ def step (t : Tables κ) : Op κ → Tables κ × Bool
   | .setHMeta md => ({ t with hmeta := md }, true)
   | .setWeight k w => setWeight t k w
   | .clear => (clear t, true)
+  | .addNodes items => (addNodes t items, true)
+  | .addEdges withW items => (addEdges t withW items, true)
+  | .setNodeAttr n f v => editNodeMeta t n (fun d => d.setField f v)
+  | .delNodeAttr n f => editNodeMeta t n (fun d => d.delField f)
+  | .setEdgeAttr k f v => editEdgeMeta t k (fun d => d.setField f v)
+  | .delEdgeAttr k f => editEdgeMeta t k (fun d => d.delField f)
+  | .setHAttr f v => setHAttr t f v
 
 def run (t : Tables κ) (ops : List (Op κ)) : Tables κ := ops.foldl (fun s o => (step s o).1) t
 
